@@ -177,9 +177,11 @@ class Executor(object):
             st.heap['$alloc'] = a
         return a
 
-    def new_ref(self, st):
+    def new_ref(self, st, pt=None):
         a = self.alloc_term(st)
         st.heap['$alloc'] = Add(a, IntC(1))
+        if pt is not None:
+            st.pc.append(Eq(Select(self.kind_arr(), a), self.kind_id(pt)))
         return a
 
     def list_arr_name(self, elem_pt):
@@ -200,7 +202,7 @@ class Executor(object):
         st.heap[name] = Store(arr, sv.t, content)
 
     def new_list(self, st, elem_pt, content):
-        r = self.new_ref(st)
+        r = self.new_ref(st, TList(elem_pt))
         es = sort_of(elem_pt)
         name = 'L:' + es
         arr = self.harr(st, name, ArrS(INT, SeqS(es)))
@@ -219,7 +221,8 @@ class Executor(object):
                     note='store into a list that is a source row (C06)')
         if pol == 'engine':
             wo = self.ghost_set(st, '$wowned')
-            self.oblige(st, 'store.offered', Not(Select(wo, ref)), node, kind='store',
+            held = self.ghost_set(st, '$held')
+            self.oblige(st, 'store.offered', And(Not(Select(wo, ref)), Not(Select(held, ref))), node, kind='store',
                         note='store into a record already handed to a writer')
 
     def field_arr(self, st, cls, field):
@@ -242,19 +245,33 @@ class Executor(object):
         arr = st.heap[name]
         st.heap[name] = Store(arr, obj.t, val.t)
 
+    KIND_IDS = {}
+
+    def kind_id(self, pt):
+        k = pt.kind
+        key = 'obj' if k == 'obj' else ('dict' if k in ('dict', 'ddict') else repr(pt))
+        if key not in self.KIND_IDS:
+            self.KIND_IDS[key] = len(self.KIND_IDS) + 1
+        return IntC(self.KIND_IDS[key])
+
+    def kind_arr(self):
+        return Var('H0!$kind', ArrS(INT, INT))      # immutable: the run-time type of a reference never changes
+
     def assume_wf(self, st, v):
-        """every reference read from the heap / passed in is allocated (sound: language invariant)"""
+        """every reference read from the heap / passed in is allocated and has its static kind
+        (sound: language invariants; references of different kinds are therefore distinct)"""
         if v.pt.is_ref():
-            st.pc.append(And(Gt(v.t, IntC(0)), Lt(v.t, self.alloc_term(st))))
+            st.pc.append(And(Gt(v.t, IntC(0)), Lt(v.t, self.alloc_term(st)), Eq(Select(self.kind_arr(), v.t), self.kind_id(v.pt))))
         elif v.pt.kind == 'opt' and v.pt.args[0].is_ref():
-            st.pc.append(And(Ge(v.t, IntC(0)), Lt(v.t, self.alloc_term(st))))
+            st.pc.append(And(Ge(v.t, IntC(0)), Lt(v.t, self.alloc_term(st)),
+                             Or(Eq(v.t, IntC(0)), Eq(Select(self.kind_arr(), v.t), self.kind_id(v.pt.args[0])))))
 
     def alloc_empty(self, st, pt):
         """allocate an empty container of static type pt"""
         k = pt.kind
         if k == 'list':
             return self.new_list(st, pt.args[0], Empty(SeqS(sort_of(pt.args[0]))))
-        ref = self.new_ref(st)
+        ref = self.new_ref(st, pt)
         v = SV(pt, ref)
         if k in ('dict', 'ddict'):
             mname, kname, m, korder, opt = self._dict_arrs(st, v)
@@ -301,6 +318,11 @@ class Executor(object):
     # ------------------------------------------------------------ obligations
     def oblige(self, st, label, goal, node=None, kind='assert', note=''):
         if goal.op == 'const' and goal.val:
+            return
+        if goal.op == 'and' and len(goal.args) > 1:
+            # one query per conjunct (same clause name): smaller queries, better diagnostics
+            for g in goal.args:
+                self.oblige(st, label, g, node, kind, note)
             return
         name = '%s.%s' % (self.contract.name if self.contract else self.func.qualname, label)
         ln = getattr(node, 'lineno', 0) if node is not None else 0
@@ -372,9 +394,9 @@ class Executor(object):
         self.alloc_term(st)
         st.pc.append(Gt(st.heap['$alloc'], IntC(0)))
         r = BVar('gr', INT)
-        srcs, wo = self.ghost_set(st, '$srcs'), self.ghost_set(st, '$wowned')
-        st.pc.append(smt.ForAll([r], Implies(Or(Select(srcs, r), Select(wo, r)), And(Gt(r, IntC(0)), Lt(r, st.heap['$alloc'])))))
-        st.pc.append(smt.ForAll([r], Not(And(Select(srcs, r), Select(wo, r)))))
+        srcs, wo, held = self.ghost_set(st, '$srcs'), self.ghost_set(st, '$wowned'), self.ghost_set(st, '$held')
+        st.pc.append(smt.ForAll([r], Implies(Or(Select(srcs, r), Select(wo, r), Select(held, r)), And(Gt(r, IntC(0)), Lt(r, st.heap['$alloc'])))))
+        st.pc.append(smt.ForAll([r], Not(And(Select(srcs, r), Or(Select(wo, r), Select(held, r))))))
         for name, pt in params:
             if pt is None:
                 raise ContractMismatch('%s: parameter %s has no type' % (contract.target, name))
@@ -417,8 +439,11 @@ class Executor(object):
         if isinstance(tgt, ast.Attribute):
             obj = self.cvalue(tgt.value, evalst, entry, result)
             self.set_field(st, obj, tgt.attr, v)
-        elif isinstance(tgt, ast.Call) and isinstance(tgt.func, ast.Name) and tgt.func.id in ('srcs', 'wowned'):
-            raise OutOfSubset('ghost set update')
+        elif isinstance(tgt, ast.Call) and isinstance(tgt.func, ast.Name) and tgt.func.id in ('is_held', 'is_owned_below'):
+            x = self.cvalue(tgt.args[0], evalst, entry, result)
+            gname = '$held' if tgt.func.id == 'is_held' else '$wowned'
+            arr = self.ghost_set(st, gname)
+            st.heap[gname] = Store(arr, x.t, v.t)
         else:
             raise OutOfSubset('ghost_update target')
 
@@ -428,6 +453,9 @@ class Executor(object):
                 self.oblige(st, 'returns.value', FALSE, self.func.node, kind='post', note='path returns None but contract promises %r' % (contract.ret,))
                 return
             result = self.coerce(result, contract.ret)
+        # in postconditions parameter names denote the values passed in (parameters are not l-values of the spec)
+        for pn, _ in list(contract.params) + list(contract.free):
+            st.locals[pn] = entry.locals[pn]
         self._apply_ghost_updates(st, entry, contract, result)
         for cl in contract.ensures:
             self.oblige(st, cl.label, self.ceval(cl.expr, st, entry, result), cl, kind='post')
@@ -439,6 +467,8 @@ class Executor(object):
             self.oblige(st, 'raises.unexpected.%s' % exc.cls, FALSE, self.func.node, kind='raises',
                         note='an exception of class %s can escape but no raises clause allows it' % exc.cls)
             return
+        for pn, _ in list(contract.params) + list(contract.free):
+            st.locals[pn] = entry.locals[pn]
         st.locals['__exc_msg'] = exc.msg if exc.msg is not None else SV(TStr, fresh('msg', STR))
         for k, v in exc.fields.items():
             st.locals['__exc_' + k] = v
@@ -545,7 +575,7 @@ class Executor(object):
             init = Var('H0!' + name, cur.sort)
             if cur == init:
                 continue
-            if name == '$wowned' and any(k == 'region' for k, _ in items):
+            if name in ('$wowned', '$held'):
                 continue
             if not cur.sort.startswith('(Array Int'):
                 continue
@@ -815,7 +845,7 @@ class Executor(object):
 
         auto_frame = (self.contract is not None and self.contract.options.get('frame') != 'off')
         frame_items = self._modset(self.contract, st, self.entry, None) if auto_frame else None
-        may_mod = sorted(n2 for n2 in self._mod_arrays(s.body, st) if n2 not in ('$alloc', '$srcs', '$wowned', '$cls'))
+        may_mod = sorted(n2 for n2 in self._mod_arrays(s.body, st) if n2 not in ('$alloc', '$srcs', '$wowned', '$cls', '$held'))
 
         def frame_goal(state, name, r):
             cur = state.heap.get(name)
@@ -859,7 +889,7 @@ class Executor(object):
         havoced = self._havoc_heap_for_loop(st, s)
         if auto_frame:
             for name in havoced:
-                if name in ('$wowned', '$cls'):
+                if name in ('$wowned', '$cls', '$held'):
                     continue
                 r = BVar('fr', INT)
                 g = frame_goal(st, name, r)
@@ -910,21 +940,24 @@ class Executor(object):
                 continue
             cur = st.heap.get(name)
             if cur is None:
-                continue
+                if name == '$held':
+                    cur = self.ghost_set(st, '$held')
+                else:
+                    continue
             st.heap[name] = fresh('hv_' + name, cur.sort)
             havoced.append(name)
         a = fresh('alloc', INT)
         st.heap['$alloc'] = a
         st.pc.append(Ge(a, alloc_old))
-        if '$wowned' in havoced:
+        if '$wowned' in havoced or '$held' in havoced:
             self.assume_ghost_sets_wf(st)
         return havoced
 
     def assume_ghost_sets_wf(self, st):
         """global ghost invariant: the ownership sets contain only allocated references and are disjoint"""
         r = BVar('gr', INT)
-        srcs, wo = self.ghost_set(st, '$srcs'), self.ghost_set(st, '$wowned')
-        st.pc.append(smt.ForAll([r], Implies(Select(wo, r), And(Gt(r, IntC(0)), Lt(r, st.heap['$alloc']), Not(Select(srcs, r))))))
+        srcs, wo, held = self.ghost_set(st, '$srcs'), self.ghost_set(st, '$wowned'), self.ghost_set(st, '$held')
+        st.pc.append(smt.ForAll([r], Implies(Or(Select(wo, r), Select(held, r)), And(Gt(r, IntC(0)), Lt(r, st.heap['$alloc']), Not(Select(srcs, r))))))
 
     PURE_METHODS = set(['find', 'startswith', 'endswith', 'count', 'replace', 'strip', 'lstrip', 'rstrip', 'split', 'join',
                         'format', 'lower', 'upper', 'get', 'items', 'keys', 'values', 'span', 'group', 'start', 'end',
@@ -959,6 +992,9 @@ class Executor(object):
                 home = self.reg.field_home(bt.args[0], e.attr)
                 return home[1] if home else None
             return None
+        for tgt, _ in c.ghost_updates:
+            if isinstance(tgt, ast.Call) and isinstance(tgt.func, ast.Name) and tgt.func.id == 'is_held':
+                pats.add('held')
         for m in c.modifies:
             if isinstance(m, ast.Call) and isinstance(m.func, ast.Name):
                 f = m.func.id
@@ -995,7 +1031,9 @@ class Executor(object):
         for p in pats:
             if p == '*':
                 return set(n for n in names if n != '$srcs')
-            if p == 'L':
+            if p == 'held':
+                out.add('$held')
+            elif p == 'L':
                 out |= set(n for n in names if n.startswith('L:'))
             elif p == 'D':
                 out |= set(n for n in names if n.startswith('D'))
